@@ -1,0 +1,11 @@
+//go:build verif
+
+// Contracts checked by /verif (govc). Comments only; not part of any normal build.
+
+package sgip
+
+// Timestamp formats a wall-clock time; its value is irrelevant to every property claimed, so its
+// contract is assumed (no ensures) rather than proved: it returns some uint32 and does not panic.
+
+//@ func Timestamp
+//@   trusted
